@@ -308,7 +308,7 @@ def noglobal_ast(run, fx):
         run.held('NOGLOBAL', inst, '', '%d namespace-scope / static-member variables, all const' % n)
 
 
-def telescope(run):
+def telescope(run, reach=None):
     """NOGLOBAL in the telemetry build (cmake -DGRAPHITE2_TELEMETRY=ON): every allocation adds to *telemetry::_category, a process-wide
     pointer into the face being loaded.  Shaping threads allocate concurrently, so the pointer must be back to its pre-load value (null)
     when gr_make_face returns: the scope guard telemetry::category saves the previous value in its constructor and its destructor puts
@@ -365,18 +365,39 @@ def telescope(run):
                              'previous category back' % fn.q)
     if n < 2:
         run.broken('NOGLOBAL', 'raw set_category calls', 'expected the two calls in Pass::readStates, found %d' % n, '')
+    # ... and the category is only ever switched while a face is being LOADED: no function that shaping, querying or destroying can
+    # reach (the call graph of the default build, from every entry point that is not a face constructor) declares a guard or calls
+    # set_category -- there the write to the process-wide pointer, and the `*_category += n` of every allocation while it points
+    # into the shared face, would race between threads
+    if reach is not None:
+        inst = 'the allocation category is switched at load time only'
+        users = []
+        for fn in fx.all_fns():
+            uses = [d for _, d in fn.elements() if d['k'] == 'DeclStmt' and any('telemetry::category' in (x.get('t') or '') for x in d.get('decls', []))]
+            uses += calls_in(fn, 'graphite2::telemetry::set_category')
+            if uses and not fn.q.startswith('graphite2::telemetry::'):
+                users.append((fn, uses[0]))
+        bad = [(fn, u) for fn, u in users if fn.f.get('m') in reach]
+        if len(users) < 4:
+            run.broken('NOGLOBAL', inst, 'expected the guards of load_face, readGlyphs, readGraphite, readPass, readStates and Code::Code; found %d function(s)' % len(users), '')
+        elif bad:
+            fn, u = bad[0]
+            run.violated('NOGLOBAL', inst, fn.loc(u), '%s switches the telemetry category (line %s) and is reachable from an entry point other than the face constructors: in a telemetry build every '
+                         'thread that shapes on the shared face writes the process-wide telemetry::_category and adds to the same counter in the face, unsynchronised' % (fn.q, u.get('ln')))
+        else:
+            run.held('NOGLOBAL', inst, users[0][0].where(), '%d functions, none reachable from a shaping / query / destroy entry point' % len(users))
 
 
 def run(run):
-    try:
-        telescope(run)
-    except AnalysisBroken as ex:
-        run.broken('NOGLOBAL', 'telemetry scope guard', str(ex), '')
     E = ER.setup(run)
     fx = E.fx
     entries = [e for e in ER.api_entries(E.ir) if e not in ER.ENTRY_LOAD]
     run.analysed['entry_points'] = len(entries)
     reach, cuts, lazyfn, sw = ER.deepconst(run, E, 'DEEPCONST', entries, lazy_enabled=True)
+    try:
+        telescope(run, reach)
+    except AnalysisBroken as ex:
+        run.broken('NOGLOBAL', 'telemetry scope guard', str(ex), '')
     ER.noglobal(run, E, 'NOGLOBAL', reach)
     noglobal_ast(run, fx)
     preload(run, fx)
